@@ -195,7 +195,70 @@ fn capture_seeds(medium: Medium) -> Vec<Vec<u8>> {
         now += if step < 60 { 5 } else { 200 };
     }
     seeds.extend(handmade_seeds(medium));
+    seeds.extend(ra_seeds(medium));
     seeds
+}
+
+/// Router advertisements (with and without prefix information) framed by a real peer stack through
+/// a raw ICMPv6 socket, so that they are also available 6LoWPAN-compressed on IEEE 802.15.4.
+fn ra_seeds(medium: Medium) -> Vec<Vec<u8>> {
+    let mut out = vec![];
+    for (life, pfx) in [(30u64, Some(60u64)), (1800, None), (0, Some(0))] {
+        let mut p = mk_node(medium, 3, 33);
+        let rw = raw::Socket::new(
+            Some(IpVersion::Ipv6),
+            Some(IpProtocol::Icmpv6),
+            raw::PacketBuffer::new(vec![raw::PacketMetadata::EMPTY; 2], vec![0; 512]),
+            raw::PacketBuffer::new(vec![raw::PacketMetadata::EMPTY; 2], vec![0; 512]),
+        );
+        let h = p.sockets.add(rw);
+        let src = ll_addr(medium, 3);
+        let dst = Ipv6Address::new(0xff02, 0, 0, 0, 0, 0, 0, 1);
+        let ra = Icmpv6Repr::Ndisc(NdiscRepr::RouterAdvert {
+            hop_limit: 64,
+            flags: NdiscRouterFlags::empty(),
+            router_lifetime: Duration::from_secs(life),
+            reachable_time: Duration::from_millis(0),
+            retrans_time: Duration::from_millis(0),
+            lladdr: None,
+            mtu: None,
+            prefix_info: pfx.map(|v| NdiscPrefixInformation {
+                prefix_len: 64,
+                flags: NdiscPrefixInfoFlags::ON_LINK | NdiscPrefixInfoFlags::ADDRCONF,
+                valid_lifetime: Duration::from_secs(v),
+                preferred_lifetime: Duration::from_secs(v / 2),
+                prefix: Ipv6Address::new(0x2001, 0xdb8, 7, 0, 0, 0, 0, 0),
+            }),
+        });
+        let ip = Ipv6Repr { src_addr: src, dst_addr: dst, next_header: IpProtocol::Icmpv6, payload_len: ra.buffer_len(), hop_limit: 255 };
+        let mut buf = vec![0u8; 40 + ra.buffer_len()];
+        ip.emit(&mut Ipv6Packet::new_unchecked(&mut buf[..]));
+        ra.emit(&src, &dst, &mut Icmpv6Packet::new_unchecked(&mut buf[40..]), &Default::default());
+        if medium == Medium::Ieee802154 {
+            // a raw socket cannot transmit on this medium (IpPayload::Raw is `todo!()` in
+            // as_sixlowpan_next_header), so frame by hand: 802.15.4 data frame, PAN 0xbeef, broadcast
+            // short destination, extended source ..03; IPHC with everything carried inline
+            // (TF elided, NH inline, HLIM=255, SAM/DAM = full 128-bit addresses, M=1).
+            let mut f: Vec<u8> = vec![0x41, 0xc8, 0x77, 0xef, 0xbe, 0xff, 0xff, 0x03, 0, 0, 0, 0, 0, 0, 0x02];
+            f.extend_from_slice(&[0x7b, 0x08, 58]);
+            f.extend_from_slice(&buf[8..24]);
+            f.extend_from_slice(&buf[24..40]);
+            f.extend_from_slice(&buf[40..]);
+            out.push(f);
+            continue;
+        }
+        let _ = p.sockets.get_mut::<raw::Socket>(h).send_slice(&buf);
+        for k in 0..5 {
+            p.iface.poll(Instant::from_millis(k * 10), &mut p.dev, &mut p.sockets);
+        }
+        for f in p.dev.drain_tx() {
+            // keep only frames that carry the advertisement (ICMPv6 type 134 somewhere in the frame)
+            if f.windows(2).any(|w| w[0] == 134 && w[1] == 0) {
+                out.push(f);
+            }
+        }
+    }
+    out
 }
 
 fn wrap_l2(medium: Medium, ip_payload: Vec<u8>, v6: bool) -> Option<Vec<u8>> {
@@ -616,6 +679,7 @@ fn main() {
     std::panic::set_hook(Box::new(|info| {
         let loc = info.location().map(|l| format!("{}:{}", l.file(), l.line())).unwrap_or_default();
         let msg = info.payload().downcast_ref::<&str>().map(|s| s.to_string()).or_else(|| info.payload().downcast_ref::<String>().cloned()).unwrap_or_default();
+        if std::env::var("FUZZ_VERBOSE").is_ok() { eprintln!("panic: {} at {}", msg, loc); }
         if let Ok(mut g) = LAST_PANIC.lock() {
             *g = format!("{} at {}", msg, loc);
         }
@@ -630,6 +694,36 @@ fn main() {
                 writeln!(out, "{}: {} seeds", medium_name(m), s.len()).ok();
                 for f in s.iter().take(6) {
                     writeln!(out, "  {}", hex(&f[..f.len().min(64)])).ok();
+                }
+            }
+        }
+        "ra-check" => {
+            // sanity of the hand-framed seeds: does a router advertisement reach SLAAC on each medium?
+            for m in [Medium::Ip, Medium::Ethernet, Medium::Ieee802154] {
+                let mut a = warm_target(m);
+                for f in ra_seeds(m) {
+                    a.dev.rx.push_back(f);
+                }
+                for k in 0..4 {
+                    a.iface.poll(Instant::from_millis(2000 + k * 10), &mut a.dev, &mut a.sockets);
+                }
+                writeln!(out, "{}: addrs={:?} tx={}", medium_name(m), a.iface.ip_addrs(), a.dev.tx.len()).ok();
+                if m == Medium::Ieee802154 {
+                    for f in ra_seeds(m) {
+                        let fr = Ieee802154Frame::new_checked(&f[..]);
+                        writeln!(out, "  frame ok={} {}", fr.is_ok(), hex(&f[..30])).ok();
+                        if let Ok(fr) = fr {
+                            writeln!(out, "  repr={:?}", Ieee802154Repr::parse(&fr)).ok();
+                            if let Some(pl) = fr.payload() {
+                                let ip = SixlowpanIphcPacket::new_checked(pl);
+                                writeln!(out, "  iphc ok={}", ip.is_ok()).ok();
+                                if let Ok(ip) = ip {
+                                    writeln!(out, "  iphc repr={:?}", SixlowpanIphcRepr::parse(&ip, None, None, &[])).ok();
+                                }
+                            }
+                        }
+                        break;
+                    }
                 }
             }
         }
